@@ -133,7 +133,7 @@ def inclusive_stop(ctx: Ctx) -> None:
     fnode = roles.canonical(f.node, {'field': fld[0] if fld else None, 'pos': posn})
 
     class C(flow.Client):
-        '''state: frozenset of facts; 'plus1' = pos already includes the +1 for the stop.'''
+        '''state: frozenset of facts; 'adj' = pos was moved one position in the direction of the step (+ 1, or - 1 under a `step < 0` test: 'desc').'''
 
         def __init__(self):
             self.yields: tp.List[tp.Tuple[ast.AST, bool]] = []
@@ -143,6 +143,10 @@ def inclusive_stop(ctx: Ctx) -> None:
 
         def refine(self, atom, st, truth):
             t = norm(atom)
+            # a test of the step's sign: on its true branch the slice descends and the inclusive stop is one *before*
+            if truth and isinstance(atom, ast.Compare) and len(atom.ops) == 1 and isinstance(atom.ops[0], ast.Lt) and norm(atom.comparators[0]) == '0' \
+                    and any(isinstance(x, ast.Attribute) and x.attr == 'step' for x in ast.walk(atom.left)):
+                return st | {'desc'}
             # projection: field == SLICE_STOP_ATTR
             proj = {'field == SLICE_STOP_ATTR': True, 'field != SLICE_STOP_ATTR': False,
                     'field == SLICE_START_ATTR': False, 'field == SLICE_STEP_ATTR': False,
@@ -154,19 +158,26 @@ def inclusive_stop(ctx: Ctx) -> None:
         def on_stmt(self, s, st):
             if isinstance(s, ast.AugAssign) and norm(s.target) == 'pos' and isinstance(s.op, ast.Add):
                 if norm(s.value) == '1':
-                    return st | {'plus1'}
+                    return st | ({'adj'} if 'desc' not in st else set())
                 return st      # offset added: keeps the fact
+            if isinstance(s, ast.AugAssign) and norm(s.target) == 'pos' and isinstance(s.op, ast.Sub) and norm(s.value) == '1':
+                return st | ({'adj'} if 'desc' in st else set())
             if isinstance(s, (ast.Assign, ast.AnnAssign)):
                 tg = s.targets if isinstance(s, ast.Assign) else [s.target]
                 if any(norm(t) == 'pos' for t in tg) and s.value is not None:
                     v = s.value
                     plus = isinstance(v, ast.BinOp) and isinstance(v.op, ast.Add) and norm(v.right) == '1'
-                    return (st | {'plus1'}) if plus else (st - {'plus1'})
+                    # pos - 1, possibly `pos - 1 if pos > 0 else None`
+                    minus = any(isinstance(x, ast.BinOp) and isinstance(x.op, ast.Sub) and norm(x.right) == '1' and norm(x.left) == 'pos' for x in ast.walk(v))
+                    st = st - {'adj'}
+                    if (plus and 'desc' not in st) or (minus and 'desc' in st):
+                        st = st | {'adj'}
+                    return st
             return st
 
         def on_yield(self, node, st):
             if isinstance(node, ast.Yield) and node.value is not None and norm(node.value) == 'pos':
-                self.yields.append((node, 'plus1' in st))
+                self.yields.append((node, 'adj' in st))
             return st
     c = C()
     flow.Engine(c).run(fnode.body, frozenset())
@@ -411,3 +422,49 @@ def nomap_rejects_negative(ctx: Ctx) -> None:
             ctx.bad(R, f, arm[0][1][0], f'the {what} arm of the map-less route returns the key without rejecting negative integers: `-1` is not a label of an '
                     'auto-integer index but selects the last position', key=key)
     ctx.require(n >= 4, 'arms of the map-less route')
+
+
+def inclusive_stop_direction(ctx: Ctx) -> None:
+    R = 'I.inclusive-stop-direction'
+    ctx.rule(R, 'a label slice includes its stop label whatever the direction of the step: the iloc stop is one further *in the direction of the step*, so every place '
+             'that adds one to a stop position (LocMap.map_slice_args on the stop field, util.slice_to_inclusive_slice) does so under a test of the sign of the step '
+             '(and subtracts one on the other branch); an unconditional + 1 makes a descending label slice stop two labels early (`loc["c":"a":-1]` yields only c)', floor=2)
+    from sfa.rules.blockrules import _enclosing_ifs
+    prog = ctx.prog
+    n = 0
+    for qual in ('index.LocMap.map_slice_args', 'util.slice_to_inclusive_slice'):
+        f = prog.func(qual)
+        step_names = {a.targets[0].id for a in walk_local(f.node) if isinstance(a, ast.Assign) and isinstance(a.targets[0], ast.Name)
+                      and any(isinstance(x, ast.Attribute) and x.attr == 'step' for x in ast.walk(a.value))}
+
+        def tests_step(t: ast.expr) -> bool:
+            return any((isinstance(x, ast.Attribute) and x.attr == 'step') or (isinstance(x, ast.Name) and x.id in step_names) for x in ast.walk(t))
+        sites: tp.List[ast.AST] = []
+        if qual.endswith('map_slice_args'):
+            fld = [lp.target.id for lp in walk_local(f.node) if isinstance(lp, ast.For) and norm(lp.iter) == 'SLICE_ATTRS' and isinstance(lp.target, ast.Name)]
+            ctx.require(bool(fld), 'map_slice_args loops over SLICE_ATTRS')
+            stop_test = f'{fld[0]} == SLICE_STOP_ATTR'
+            for s in walk_local(f.node):
+                plus = (isinstance(s, ast.AugAssign) and isinstance(s.op, ast.Add) and norm(s.value) == '1') or \
+                    (isinstance(s, ast.Assign) and isinstance(s.value, ast.BinOp) and isinstance(s.value.op, ast.Add) and norm(s.value.right) == '1')
+                if plus and any(pol and norm(i.test) == stop_test for i, pol in _enclosing_ifs(f.node, s)):
+                    sites.append(s)
+        else:
+            kparam = f.params[0] if f.params else 'key'
+            for b in walk_local(f.node):
+                if isinstance(b, ast.BinOp) and isinstance(b.op, ast.Add) and norm(b.right) == '1' and norm(b.left) == f'{kparam}.stop':
+                    sites.append(b)
+        for i_s, s in enumerate(sites):
+            n += 1
+            arm = 'datetime' if any(pol and 'datetime64' in norm(i.test) for i, pol in _enclosing_ifs(f.node, s)) else 'label'
+            kind = 'aug' if isinstance(s, ast.AugAssign) else ('assign' if isinstance(s, ast.Assign) else 'stop-attr')
+            key = f'{qual.split(".", 1)[1]}:stop+1:{kind}@{arm}'
+            guarded = any(tests_step(i.test) for i, _p in _enclosing_ifs(f.node, s))
+            # an IfExp around it whose test looks at the step
+            guarded = guarded or any(isinstance(x, ast.IfExp) and tests_step(x.test) and any(y is s for y in ast.walk(x)) for x in walk_local(f.node))
+            if guarded:
+                ctx.ok(R, f, s, 'the + 1 is applied under a test of the step\'s sign', key=key)
+            else:
+                ctx.bad(R, f, s, f'`{norm(s)[:50]}` moves the stop position forward whatever the sign of the step: with a descending step the slice stops two labels '
+                        'before its stop label instead of including it', key=key)
+    ctx.require(n >= 2, 'places that make a label-slice stop inclusive')
